@@ -457,3 +457,10 @@ def h1(ctx: Ctx) -> None:
     from .c06 import r6 as book_clock_rule
 
     book_clock_rule(ctx)
+
+
+@rule("C04.H2", "mechanism shared with C10: the volume a cancel / expiry / fill record reports is the order's own volume at that moment (the accounting identity is read off these records)", "T10 field provenance (same rule as C10.R3)", floor=10)
+def h2(ctx: Ctx) -> None:
+    from .c10 import r3 as record_fields_rule
+
+    record_fields_rule(ctx)
